@@ -514,4 +514,168 @@ theorem undisturbed_defines (s : Sys) (defs : List (List Nat)) (p : Nat) (hp : p
       rw [step_eq_push, pipes_push_old s _ p hp]
       exact hfresh d' (List.mem_cons_of_mem _ hd') i hi
 
+
+/-! ## The parametrised definitions (`P.addBy`, `keyLe`, `resolveBy`, `initPipelineBy`) -/
+
+theorem addBy_std : P.addBy AddShape.std = P.add := rfl
+
+theorem keyLe_total (ks : List KeyComp) (a b : Spec) : keyLe ks a b = true ∨ keyLe ks b a = true := by
+  induction ks with
+  | nil => simp [keyLe]
+  | cons k ks ih =>
+    simp only [keyLe, Bool.or_eq_true, Bool.and_eq_true, decide_eq_true_eq, beq_iff_eq]
+    rcases Nat.lt_trichotomy (k.get a) (k.get b) with h | h | h
+    · exact .inl (.inl h)
+    · rcases ih with h' | h'
+      · exact .inl (.inr ⟨h, h'⟩)
+      · exact .inr (.inr ⟨h.symm, h'⟩)
+    · exact .inr (.inl h)
+
+theorem keyLe_trans (ks : List KeyComp) {a b c : Spec} (h1 : keyLe ks a b = true)
+    (h2 : keyLe ks b c = true) : keyLe ks a c = true := by
+  induction ks with
+  | nil => simp [keyLe]
+  | cons k ks ih =>
+    simp only [keyLe, Bool.or_eq_true, Bool.and_eq_true, decide_eq_true_eq, beq_iff_eq] at *
+    rcases h1 with h1 | ⟨e1, h1⟩ <;> rcases h2 with h2 | ⟨e2, h2⟩
+    · exact .inl (by omega)
+    · exact .inl (by omega)
+    · exact .inl (by omega)
+    · exact .inr ⟨by omega, ih h1 h2⟩
+
+/-- two specifiers that compare `≤` both ways agree on every component of the key -/
+theorem keyLe_antisymm (ks : List KeyComp) {a b : Spec} (h1 : keyLe ks a b = true)
+    (h2 : keyLe ks b a = true) : ∀ k ∈ ks, k.get a = k.get b := by
+  induction ks with
+  | nil => intro k hk; cases hk
+  | cons k ks ih =>
+    simp only [keyLe, Bool.or_eq_true, Bool.and_eq_true, decide_eq_true_eq, beq_iff_eq] at h1 h2
+    have he : k.get a = k.get b := by
+      rcases h1 with h1 | ⟨e1, _⟩ <;> rcases h2 with h2 | ⟨e2, _⟩ <;> omega
+    have t1 : keyLe ks a b = true := by
+      rcases h1 with h1 | ⟨_, h1⟩
+      · omega
+      · exact h1
+    have t2 : keyLe ks b a = true := by
+      rcases h2 with h2 | ⟨_, h2⟩
+      · omega
+      · exact h2
+    intro k' hk'
+    rcases List.mem_cons.1 hk' with rfl | hk'
+    · exact he
+    · exact ih t1 t2 k' hk'
+
+theorem keyLe_std (a b : Spec) : keyLe stdKey a b = Spec.le a b := by
+  show (decide (a.priority < b.priority) || (a.priority == b.priority &&
+      (decide (a.name < b.name) || (a.name == b.name && true)))) =
+    (decide (a.priority < b.priority) || (a.priority == b.priority && decide (a.name ≤ b.name)))
+  congr 2
+  rw [Bool.and_true, Bool.eq_iff_iff]
+  simp only [Bool.or_eq_true, decide_eq_true_eq, beq_iff_eq]
+  omega
+
+theorem insertSortedBy_std (x : Spec) (l : List Spec) :
+    insertSortedBy (keyLe stdKey) x l = insertSorted x l := by
+  induction l with
+  | nil => rfl
+  | cons y ys ih => simp only [insertSortedBy, insertSorted, keyLe_std, ih]
+
+theorem sortSpecsBy_std (l : List Spec) : sortSpecsBy (keyLe stdKey) l = sortSpecs l := by
+  induction l with
+  | nil => rfl
+  | cons x xs ih => simp only [sortSpecsBy, sortSpecs, ih, insertSortedBy_std]
+
+theorem resolveBy_std (l : List Spec) : resolveBy stdKey l = resolve l := by
+  simp only [resolveBy, resolve, sortSpecsBy_std]
+
+section SortBy
+variable (le : Spec → Spec → Bool)
+
+theorem insertSortedBy_perm (x : Spec) (l : List Spec) : (insertSortedBy le x l).Perm (x :: l) := by
+  induction l with
+  | nil => simp [insertSortedBy]
+  | cons y ys ih =>
+    simp only [insertSortedBy]
+    split
+    · exact (List.Perm.cons y ih).trans (List.Perm.swap x y ys)
+    · exact List.Perm.refl _
+
+theorem sortSpecsBy_perm (l : List Spec) : (sortSpecsBy le l).Perm l := by
+  induction l with
+  | nil => simp [sortSpecsBy]
+  | cons x xs ih =>
+    simp only [sortSpecsBy]
+    exact (insertSortedBy_perm le x _).trans (List.Perm.cons x ih)
+
+theorem insertSortedBy_sorted (htot : ∀ a b, le a b = true ∨ le b a = true)
+    (htr : ∀ a b c, le a b = true → le b c = true → le a c = true) (x : Spec) (l : List Spec)
+    (h : l.Pairwise (fun a b => le a b = true)) :
+    (insertSortedBy le x l).Pairwise (fun a b => le a b = true) := by
+  induction l with
+  | nil => simp [insertSortedBy]
+  | cons y ys ih =>
+    simp only [insertSortedBy]
+    rw [List.pairwise_cons] at h
+    cases hxy : le x y with
+    | false =>
+      simp only [Bool.not_false, if_true]
+      rw [List.pairwise_cons]
+      refine ⟨?_, ih h.2⟩
+      intro z hz
+      have := (insertSortedBy_perm le x ys).mem_iff.1 hz
+      rcases List.mem_cons.1 this with rfl | hz'
+      · rcases htot z y with h' | h'
+        · simp [hxy] at h'
+        · exact h'
+      · exact h.1 z hz'
+    | true =>
+      simp only [Bool.not_true, Bool.false_eq_true, if_false]
+      rw [List.pairwise_cons]
+      refine ⟨?_, List.pairwise_cons.2 h⟩
+      intro z hz
+      rcases List.mem_cons.1 hz with rfl | hz'
+      · exact hxy
+      · exact htr _ _ _ hxy (h.1 z hz')
+
+theorem sortSpecsBy_sorted (htot : ∀ a b, le a b = true ∨ le b a = true)
+    (htr : ∀ a b c, le a b = true → le b c = true → le a c = true) (l : List Spec) :
+    (sortSpecsBy le l).Pairwise (fun a b => le a b = true) := by
+  induction l with
+  | nil => simp [sortSpecsBy]
+  | cons x xs ih => exact insertSortedBy_sorted le htot htr x _ ih
+
+end SortBy
+
+/-- the resolver's result does not depend on the order in which the pipelines are named, for *any*
+sort key, provided the key identifies the pipeline among those named -/
+theorem sortSpecsBy_eq_of_perm (ks : List KeyComp) (l1 l2 : List Spec) (hp : l1.Perm l2)
+    (hkey : ∀ a ∈ l1, ∀ b ∈ l1, (∀ k ∈ ks, k.get a = k.get b) → a = b) :
+    sortSpecsBy (keyLe ks) l1 = sortSpecsBy (keyLe ks) l2 := by
+  apply eq_of_perm_of_sorted (le := fun a b => keyLe ks a b = true)
+  · intro a ha b hb hab hba
+    have ha' := (sortSpecsBy_perm _ l1).mem_iff.1 ha
+    have hb' := (sortSpecsBy_perm _ l1).mem_iff.1 hb
+    exact hkey a ha' b hb' (keyLe_antisymm ks hab hba)
+  · exact sortSpecsBy_sorted _ (keyLe_total ks) (fun _ _ _ => keyLe_trans ks) l1
+  · exact sortSpecsBy_sorted _ (keyLe_total ks) (fun _ _ _ => keyLe_trans ks) l2
+  · exact (sortSpecsBy_perm _ l1).trans (hp.trans (sortSpecsBy_perm _ l2).symm)
+
+theorem foldl_addP (l : List P) (init : P) : l.foldl P.add init = init.add (sumP l) := by
+  induction l generalizing init with
+  | nil => cases init; simp [sumP, P.add]
+  | cons x xs ih =>
+    rw [List.foldl_cons, ih]
+    simp [sumP, P.add, List.append_assoc]
+
+theorem initPipelineBy_eq (order : List Slot) (b u f : P) :
+    initPipelineBy order b u f = sumP (order.map (Slot.pick b u f)) := by
+  have : initPipelineBy order b u f = (order.map (Slot.pick b u f)).foldl P.add P.empty := by
+    simp [initPipelineBy, List.foldl_map]
+  rw [this, foldl_addP]
+  simp [P.add, P.empty, sumP]
+
+theorem initPipelineBy_std (b u f : P) : initPipelineBy stdInitOrder b u f = initPipeline b u f := by
+  cases b; cases u; cases f
+  simp [initPipelineBy, stdInitOrder, initPipeline, Slot.pick, P.add, P.empty]
+
 end SigmaVerif.Pipe
